@@ -137,6 +137,12 @@ func convertSliceOrArray(rv reflect.Value, rt reflect.Type) (reflect.Value, erro
 // so it can be passed to a Go function argument with the correct static types
 // it creates a translate function runVMConvertFunction
 func convertVMFunctionToType(rv reflect.Value, rt reflect.Type) (reflect.Value, error) {
+	return convertVMFunctionToTypeContext(context.Background(), rv, rt)
+}
+
+// convertVMFunctionToTypeContext is convertVMFunctionToType with the context the
+// translated function runs the VM function under
+func convertVMFunctionToTypeContext(ctx context.Context, rv reflect.Value, rt reflect.Type) (reflect.Value, error) {
 	// only translates runVMFunction type
 	if !checkIfRunVMFunction(rv.Type()) {
 		return rv, errInvalidTypeConversion
@@ -151,8 +157,7 @@ func convertVMFunctionToType(rv reflect.Value, rt reflect.Type) (reflect.Value, 
 		// make the reflect.Value slice of each of the VM reflect.Value
 		args := make([]reflect.Value, 0, rt.NumIn()+1)
 		// for runVMFunction first arg is always context
-		// TOFIX: use normal context
-		args = append(args, reflect.ValueOf(context.Background()))
+		args = append(args, reflect.ValueOf(ctx))
 		for i := 0; i < rt.NumIn(); i++ {
 			// have to do the double reflect.ValueOf that runVMFunction expects
 			args = append(args, reflect.ValueOf(in[i]))
